@@ -23,7 +23,7 @@ PROP = {
              "optionally one UpdateParams and one stake change that makes dogfood emit a validator update at the next epoch end). The history is "
              "run once without stopping; then for EVERY height r the multistore is rolled back to version r, the oracle's process-local state is "
              "dropped (verif hook) and blocks r+1.. are re-executed: the restarted twin. One extra twin per history is restarted three times. "
-             "6 directed histories (one per known finding class) come first. distinct = distinct sha1 of the Coq case; all cases count as non-trivial "
+             "8 directed histories come first: two reproducing the remaining known findings (finalized round reopened; reverted params update) and six regression scenarios of repaired defects (untagged). distinct = distinct sha1 of the Coq case; all cases count as non-trivial "
              "(every case re-executes at least one block on a rebuilt aggregator)"),
     "explanation": ("Coq theorems about an executable model of the oracle's in-memory state, of what EndBlock persists and of "
                     "recacheAggregatorContext, for all histories; the model is tied to the code by differential execution (codes, store "
